@@ -176,7 +176,11 @@ pub fn case(idx: u64, seed: u64, p: &Params, o: &mut CaseOut) {
                 rng.sort_unstable();
                 let once: Vec<(u64, u64, usize, usize)> = rng.chunks(2).flat_map(|c| [(site, graaf::verif::BEGIN, c[0].0, c[0].1), (site, graaf::verif::END, c[0].0, c[0].1)]).collect();
                 let paired = rng.len() % 2 == 0 && rng.chunks(2).all(|c| c[0] == c[1]);
-                o.check(paired, "tiling:two-calls-use-different-partitions", || format!("{rng:?}"));
+                // C15/C17 require equal RESULTS of equal calls (judged above), not
+                // equal partitions: a different split is recorded, not judged.
+                if !paired {
+                    o.bump("note: two equal calls partitioned their rows differently");
+                }
                 if paired {
                     if let Some(tl) = check_tiling(&once, site, n, false, o, if kind == 0 { "AdjacencyMap::random_tournament" } else { "AdjacencyMap::erdos_renyi" }) {
                         o.bumpn("workers", tl.workers);
